@@ -118,25 +118,25 @@ theorem sem_mono_both (L : Layout) : ∀ (f : Nat),
         simp only [sem] at h
         rw [sem]
         split at h
-        · rename_i hc; rw [if_pos hc]; exact ih1 m t o h
+        · rename_i hc; rw [if_pos hc]; exact ih1 _ t o h
         · rename_i hc; rw [if_neg hc]; exact h
       | ifElse c t e =>
         simp only [sem] at h
         rw [sem]
         split at h
-        · rename_i hc; rw [if_pos hc]; exact ih1 m t o h
-        · rename_i hc; rw [if_neg hc]; exact ih1 m e o h
+        · rename_i hc; rw [if_pos hc]; exact ih1 _ t o h
+        · rename_i hc; rw [if_neg hc]; exact ih1 _ e o h
       | «while» c b =>
         simp only [sem] at h
         rw [sem]
         split at h
         · rename_i hc
           rw [if_pos hc]
-          cases h1 : sem L f m b with
+          cases h1 : sem L f (condEff L m c) b with
           | none => simp [h1] at h
           | some ob =>
             obtain ⟨eb, m1⟩ := ob
-            rw [ih1 m b _ h1]
+            rw [ih1 _ b _ h1]
             cases eb with
             | brk => simpa [h1] using h
             | norm => simp only [h1] at h; exact ih1 m1 _ o h
@@ -155,12 +155,12 @@ theorem sem_mono_both (L : Layout) : ∀ (f : Nat),
           | norm =>
             simp only [h1] at h ⊢
             split at h
-            · rename_i hc; rw [if_pos hc]; exact ih1 m1 _ o h
+            · rename_i hc; rw [if_pos hc]; exact ih1 _ _ o h
             · rename_i hc; rw [if_neg hc]; exact h
           | cont =>
             simp only [h1] at h ⊢
             split at h
-            · rename_i hc; rw [if_pos hc]; exact ih1 m1 _ o h
+            · rename_i hc; rw [if_pos hc]; exact ih1 _ _ o h
             · rename_i hc; rw [if_neg hc]; exact h
       | «for» i c u b =>
         simp only [sem] at h
@@ -171,11 +171,11 @@ theorem sem_mono_both (L : Layout) : ∀ (f : Nat),
       split at h
       · rename_i hc
         rw [if_pos hc]
-        cases h1 : sem L f m b with
+        cases h1 : sem L f (condEff L m c) b with
         | none => simp [h1] at h
         | some ob =>
           obtain ⟨eb, m1⟩ := ob
-          rw [ih1 m b _ h1]
+          rw [ih1 _ b _ h1]
           cases eb with
           | brk => simpa [h1] using h
           | norm => simp only [h1] at h; exact ih2 c u b _ o h
@@ -235,50 +235,80 @@ def Cond.neg : Cond → Cond
   | .not c => c
   | .cmpE op e b l => .cmpE op.negate e b l
   | .truthE e => .not (.truthE e)
+  | .cmpR op e y l => .cmpR op.negate e y l
 
 /-- every comparison written from the other side (`a ⋈ b` ↦ `b ⋈' a`) -/
 def Cond.swap : Cond → Cond
   | .cmp op a b => .cmp op.mirror b a
   | .cmpE op e b l => .cmpE op.mirror e b (!l)
+  | .cmpR op e y l => .cmpR op.mirror e y (!l)
   | .and a b => .and (Cond.swap a) (Cond.swap b)
   | .or a b => .or (Cond.swap a) (Cond.swap b)
   | .not c => .not (Cond.swap c)
   | c => c
 
-theorem evalCond_neg (L : Layout) (m : SrcSt) (c : Cond) : evalCond L m (Cond.neg c) = !evalCond L m c := by
+theorem condRun_neg (L : Layout) (c : Cond) : ∀ m : SrcSt,
+    evalCond L m (Cond.neg c) = (!evalCond L m c) ∧ condEff L m (Cond.neg c) = condEff L m c := by
   induction c with
-  | cmp op a b => simp [Cond.neg, evalCond, negate_means_not]
-  | truth v => simp [Cond.neg, evalCond, bne]
-  | nottruth v => simp [Cond.neg, evalCond, bne]
-  | and a b iha ihb => simp [Cond.neg, evalCond, iha, ihb]
-  | or a b iha ihb => simp [Cond.neg, evalCond, iha, ihb]
-  | not c ih => simp [Cond.neg, evalCond]
-  | cmpE op e b l => cases l <;> simp [Cond.neg, evalCond, negate_means_not]
-  | truthE e => simp [Cond.neg, evalCond]
+  | cmp op a b => intro m; simp [Cond.neg, evalCond_cmp, evalCond_truth, evalCond_nottruth, evalCond_cmpE, evalCond_truthE, evalCond_not, evalCond_and, evalCond_or, condEff_cmp, condEff_truth, condEff_nottruth, condEff_cmpE, condEff_truthE, condEff_not, condEff_and, condEff_or, negate_means_not]
+  | truth v => intro m; simp [Cond.neg, evalCond_cmp, evalCond_truth, evalCond_nottruth, evalCond_cmpE, evalCond_truthE, evalCond_not, evalCond_and, evalCond_or, condEff_cmp, condEff_truth, condEff_nottruth, condEff_cmpE, condEff_truthE, condEff_not, condEff_and, condEff_or, bne]
+  | nottruth v => intro m; simp [Cond.neg, evalCond_cmp, evalCond_truth, evalCond_nottruth, evalCond_cmpE, evalCond_truthE, evalCond_not, evalCond_and, evalCond_or, condEff_cmp, condEff_truth, condEff_nottruth, condEff_cmpE, condEff_truthE, condEff_not, condEff_and, condEff_or, bne]
+  | and a b iha ihb =>
+    intro m
+    obtain ⟨a1, a2⟩ := iha m
+    obtain ⟨b1, b2⟩ := ihb (condEff L m a)
+    simp only [Cond.neg, evalCond_and, evalCond_or, condEff_and, condEff_or, a1, a2, b1, b2]
+    cases evalCond L m a <;> simp
+  | or a b iha ihb =>
+    intro m
+    obtain ⟨a1, a2⟩ := iha m
+    obtain ⟨b1, b2⟩ := ihb (condEff L m a)
+    simp only [Cond.neg, evalCond_and, evalCond_or, condEff_and, condEff_or, a1, a2, b1, b2]
+    cases evalCond L m a <;> simp
+  | not c ih => intro m; simp [Cond.neg, evalCond_cmp, evalCond_truth, evalCond_nottruth, evalCond_cmpE, evalCond_truthE, evalCond_not, evalCond_and, evalCond_or, condEff_cmp, condEff_truth, condEff_nottruth, condEff_cmpE, condEff_truthE, condEff_not, condEff_and, condEff_or]
+  | cmpE op e b l => intro m; cases l <;> simp [Cond.neg, evalCond_cmp, evalCond_truth, evalCond_nottruth, evalCond_cmpE, evalCond_truthE, evalCond_not, evalCond_and, evalCond_or, condEff_cmp, condEff_truth, condEff_nottruth, condEff_cmpE, condEff_truthE, condEff_not, condEff_and, condEff_or, negate_means_not]
+  | truthE e => intro m; simp [Cond.neg, evalCond_cmp, evalCond_truth, evalCond_nottruth, evalCond_cmpE, evalCond_truthE, evalCond_not, evalCond_and, evalCond_or, condEff_cmp, condEff_truth, condEff_nottruth, condEff_cmpE, condEff_truthE, condEff_not, condEff_and, condEff_or]
+  | cmpR op e y l => intro m; cases l <;> simp [Cond.neg, evalCond_cmpR, condEff_cmpR, negate_means_not]
 
-theorem evalCond_swap (L : Layout) (m : SrcSt) (c : Cond) : evalCond L m (Cond.swap c) = evalCond L m c := by
+theorem evalCond_neg (L : Layout) (m : SrcSt) (c : Cond) : evalCond L m (Cond.neg c) = !evalCond L m c := (condRun_neg L c m).1
+theorem condEff_neg (L : Layout) (m : SrcSt) (c : Cond) : condEff L m (Cond.neg c) = condEff L m c := (condRun_neg L c m).2
+
+theorem condRun_swap (L : Layout) (c : Cond) : ∀ m : SrcSt,
+    evalCond L m (Cond.swap c) = evalCond L m c ∧ condEff L m (Cond.swap c) = condEff L m c := by
   induction c with
-  | cmp op a b => simp [Cond.swap, evalCond, mirror_means_swap]
-  | truth v => rfl
-  | nottruth v => rfl
-  | and a b iha ihb => simp [Cond.swap, evalCond, iha, ihb]
-  | or a b iha ihb => simp [Cond.swap, evalCond, iha, ihb]
-  | not c ih => simp [Cond.swap, evalCond, ih]
-  | cmpE op e b l => cases l <;> simp [Cond.swap, evalCond, mirror_means_swap]
-  | truthE e => rfl
+  | cmp op a b => intro m; simp [Cond.swap, evalCond_cmp, evalCond_truth, evalCond_nottruth, evalCond_cmpE, evalCond_truthE, evalCond_not, evalCond_and, evalCond_or, condEff_cmp, condEff_truth, condEff_nottruth, condEff_cmpE, condEff_truthE, condEff_not, condEff_and, condEff_or, mirror_means_swap]
+  | truth v => intro m; exact ⟨rfl, rfl⟩
+  | nottruth v => intro m; exact ⟨rfl, rfl⟩
+  | and a b iha ihb =>
+    intro m
+    obtain ⟨a1, a2⟩ := iha m
+    obtain ⟨b1, b2⟩ := ihb (condEff L m a)
+    simp [Cond.swap, evalCond_and, condEff_and, a1, a2, b1, b2]
+  | or a b iha ihb =>
+    intro m
+    obtain ⟨a1, a2⟩ := iha m
+    obtain ⟨b1, b2⟩ := ihb (condEff L m a)
+    simp [Cond.swap, evalCond_or, condEff_or, a1, a2, b1, b2]
+  | not c ih => intro m; simp [Cond.swap, evalCond_cmp, evalCond_truth, evalCond_nottruth, evalCond_cmpE, evalCond_truthE, evalCond_not, evalCond_and, evalCond_or, condEff_cmp, condEff_truth, condEff_nottruth, condEff_cmpE, condEff_truthE, condEff_not, condEff_and, condEff_or, ih m]
+  | cmpE op e b l => intro m; cases l <;> simp [Cond.swap, evalCond_cmp, evalCond_truth, evalCond_nottruth, evalCond_cmpE, evalCond_truthE, evalCond_not, evalCond_and, evalCond_or, condEff_cmp, condEff_truth, condEff_nottruth, condEff_cmpE, condEff_truthE, condEff_not, condEff_and, condEff_or, mirror_means_swap]
+  | truthE e => intro m; exact ⟨rfl, rfl⟩
+  | cmpR op e y l => intro m; cases l <;> simp [Cond.swap, evalCond_cmpR, condEff_cmpR, mirror_means_swap]
+
+theorem evalCond_swap (L : Layout) (m : SrcSt) (c : Cond) : evalCond L m (Cond.swap c) = evalCond L m c := (condRun_swap L c m).1
+theorem condEff_swap (L : Layout) (m : SrcSt) (c : Cond) : condEff L m (Cond.swap c) = condEff L m c := (condRun_swap L c m).2
 
 /-- De Morgan at the source level: `!(a && b)` ≡ `!a || !b`, `!(a || b)` ≡ `!a && !b` -/
 theorem de_morgan_law (L : Layout) (m : SrcSt) (a b : Cond) :
     evalCond L m (.not (.and a b)) = evalCond L m (.or (.not a) (.not b)) ∧
     evalCond L m (.not (.or a b)) = evalCond L m (.and (.not a) (.not b)) := by
-  simp [evalCond]
+  simp [evalCond_cmp, evalCond_truth, evalCond_nottruth, evalCond_cmpE, evalCond_truthE, evalCond_not, evalCond_and, evalCond_or, condEff_cmp, condEff_truth, condEff_nottruth, condEff_cmpE, condEff_truthE, condEff_not, condEff_and, condEff_or]
 
 /-- `if (c) A else B` ≡ `if (!c) B else A` -/
 theorem if_else_swap_law (L : Layout) (f : Nat) (m : SrcSt) (c : Cond) (t e : SStmt) :
     sem L f m (.ifElse c t e) = sem L f m (.ifElse (Cond.neg c) e t) := by
   cases f with
   | zero => rfl
-  | succ f => simp only [sem, evalCond_neg]; cases evalCond L m c <;> simp
+  | succ f => simp only [sem, evalCond_neg, condEff_neg]; cases evalCond L m c <;> simp
 
 /-- the same with the `!` operator itself: `if (c) A else B` ≡ `if (!(c)) B else A` -/
 theorem if_else_not_law (L : Layout) (f : Nat) (m : SrcSt) (c : Cond) (t e : SStmt) :
@@ -286,11 +316,12 @@ theorem if_else_not_law (L : Layout) (f : Nat) (m : SrcSt) (c : Cond) (t e : SSt
   cases f with
   | zero => rfl
   | succ f =>
-    simp only [sem, evalCond]
+    simp only [sem, evalCond_cmp, evalCond_truth, evalCond_nottruth, evalCond_cmpE, evalCond_truthE, evalCond_not, evalCond_and, evalCond_or, condEff_cmp, condEff_truth, condEff_nottruth, condEff_cmpE, condEff_truthE, condEff_not, condEff_and, condEff_or]
     rcases Bool.eq_false_or_eq_true (evalCond L m c) with h | h <;> simp [h]
 
 /-- replacing a loop / branch condition by one with the same truth value everywhere -/
-theorem cond_congr (L : Layout) (c c' : Cond) (hc : ∀ m, evalCond L m c = evalCond L m c') :
+theorem cond_congr (L : Layout) (c c' : Cond) (hc : ∀ m, evalCond L m c = evalCond L m c')
+    (he : ∀ m, condEff L m c = condEff L m c') :
     ∀ (f : Nat) (m : SrcSt),
       (∀ t, sem L f m (.ifThen c t) = sem L f m (.ifThen c' t)) ∧
       (∀ t e, sem L f m (.ifElse c t e) = sem L f m (.ifElse c' t e)) ∧
@@ -304,12 +335,12 @@ theorem cond_congr (L : Layout) (c c' : Cond) (hc : ∀ m, evalCond L m c = eval
   | succ f ih =>
     intro m
     refine ⟨?_, ?_, ?_, ?_, ?_, ?_⟩
-    · intro t; simp only [sem, hc]
-    · intro t e; simp only [sem, hc]
+    · intro t; simp only [sem, hc, he]
+    · intro t e; simp only [sem, hc, he]
     · intro b
-      simp only [sem, hc]
+      simp only [sem, hc, he]
       split
-      · cases sem L f m b with
+      · cases sem L f (condEff L m c') b with
         | none => rfl
         | some ob =>
           obtain ⟨eb, m1⟩ := ob
@@ -321,11 +352,11 @@ theorem cond_congr (L : Layout) (c c' : Cond) (hc : ∀ m, evalCond L m c = eval
       | none => rfl
       | some ob =>
         obtain ⟨eb, m1⟩ := ob
-        cases eb <;> simp [hc, (ih m1).2.2.2.1 b]
+        cases eb <;> simp [hc, he, (ih _).2.2.2.1 b]
     · intro u b
-      simp only [semFor, hc]
+      simp only [semFor, hc, he]
       split
-      · cases sem L f m b with
+      · cases sem L f (condEff L m c') b with
         | none => rfl
         | some ob =>
           obtain ⟨eb, m1⟩ := ob
@@ -342,7 +373,7 @@ theorem compare_swap_law (L : Layout) (c : Cond) (f : Nat) (m : SrcSt) :
     (∀ b, sem L f m (.while c b) = sem L f m (.while (Cond.swap c) b)) ∧
     (∀ b, sem L f m (.doWhile b c) = sem L f m (.doWhile b (Cond.swap c))) ∧
     (∀ i u b, sem L f m (.for i c u b) = sem L f m (.for i (Cond.swap c) u b)) := by
-  have := cond_congr L c (Cond.swap c) (fun m => (evalCond_swap L m c).symm) f m
+  have := cond_congr L c (Cond.swap c) (fun m => (evalCond_swap L m c).symm) (fun m => (condEff_swap L m c).symm) f m
   exact ⟨this.1, this.2.1, this.2.2.1, this.2.2.2.1, this.2.2.2.2.2⟩
 
 /-- `for (i; c; u) S` ≡ `i; while (c) { S; u; }` — for a body without a `continue` of its own (a `continue`
@@ -359,7 +390,7 @@ theorem for_while_law (L : Layout) (i u : RStmt) (c : Cond) (b : SStmt) (hcn : c
       simp only [semFor] at h
       by_cases hc : evalCond L m c = true
       · rw [if_pos hc] at h
-        cases h1 : sem L f m b with
+        cases h1 : sem L f (condEff L m c) b with
         | none => simp [h1] at h
         | some ob =>
           obtain ⟨eb, m1⟩ := ob
@@ -369,13 +400,13 @@ theorem for_while_law (L : Layout) (i u : RStmt) (c : Cond) (b : SStmt) (hcn : c
             subst h
             exact ⟨f + 2, by simp [sem, hc, h1]⟩
           | cont =>
-            have := C01.sem_cont_has_continue L f m b m1 h1
+            have := C01.sem_cont_has_continue L f _ b m1 h1
             rw [hcn] at this; cases this
           | norm =>
             simp only [h1] at h
             obtain ⟨f2, h2⟩ := ih _ o h
             refine ⟨f + f2 + 3, ?_⟩
-            have hb := sem_mono_add L f (f2 + 1) m b _ h1
+            have hb := sem_mono_add L f (f2 + 1) _ b _ h1
             have hw := sem_mono_add L f2 (f + 2) _ _ o h2
             have e1 : f + f2 + 3 = (f + f2 + 2) + 1 := by omega
             rw [e1, sem, if_pos hc]
@@ -408,7 +439,7 @@ theorem for_while_law (L : Layout) (i u : RStmt) (c : Cond) (b : SStmt) (hcn : c
         | zero => simp [sem] at h
         | succ f =>
           simp only [sem] at h
-          cases h1 : sem L f m b with
+          cases h1 : sem L f (condEff L m c) b with
           | none => simp [h1] at h
           | some ob =>
             obtain ⟨eb, m1⟩ := ob
@@ -418,7 +449,7 @@ theorem for_while_law (L : Layout) (i u : RStmt) (c : Cond) (b : SStmt) (hcn : c
               subst h
               exact ⟨f + 1, by simp [semFor, hc, h1]⟩
             | cont =>
-              have := C01.sem_cont_has_continue L f m b m1 h1
+              have := C01.sem_cont_has_continue L f _ b m1 h1
               rw [hcn] at this; cases this
             | norm =>
               simp only [h1] at h
@@ -429,7 +460,7 @@ theorem for_while_law (L : Layout) (i u : RStmt) (c : Cond) (b : SStmt) (hcn : c
                 obtain ⟨k, hk⟩ := ih _ o h
                 refine ⟨(f + 1) + k + 1, ?_⟩
                 rw [semFor, if_pos hc]
-                rw [sem_mono_add L (f + 1) k m b _ h1]
+                rw [sem_mono_add L (f + 1) k _ b _ h1]
                 simp only
                 have := semFor_mono_add L c u b k (f + 1) _ o hk
                 rw [Nat.add_comm] at this
@@ -471,7 +502,7 @@ theorem while_dowhile_law (L : Layout) (c : Cond) (b : SStmt) : ∀ (m : SrcSt) 
       simp only [sem] at h
       by_cases hc : evalCond L m c = true
       · rw [if_pos hc] at h
-        cases h1 : sem L f m b with
+        cases h1 : sem L f (condEff L m c) b with
         | none => simp [h1] at h
         | some ob =>
           obtain ⟨eb, m1⟩ := ob
@@ -486,10 +517,10 @@ theorem while_dowhile_law (L : Layout) (c : Cond) (b : SStmt) : ∀ (m : SrcSt) 
               have e1 : f + f2 + 2 = (f + f2 + 1) + 1 := by omega
               rw [e1, sem, if_pos hc]
               have e2 : f + f2 + 1 = (f + f2) + 1 := by omega
-              rw [e2, sem, sem_mono_add L f f2 m b _ h1]
+              rw [e2, sem, sem_mono_add L f f2 _ b _ h1]
               by_cases hc1 : evalCond L m1 c = true
               · rw [if_pos hc1] at h2
-                have := sem_mono_add L f2 f m1 _ o h2
+                have := sem_mono_add L f2 f _ _ o h2
                 rw [Nat.add_comm] at this
                 cases eb with
                 | brk => exact absurd rfl hne
@@ -515,26 +546,26 @@ theorem while_dowhile_law (L : Layout) (c : Cond) (b : SStmt) : ∀ (m : SrcSt) 
             exact key f2 h2 (by simp)
       · rw [if_neg hc] at h
         exact ⟨1, by simp only [sem, if_neg hc]; exact h⟩
-  have bwd : ∀ f m o, sem L f m (.doWhile b c) = some o → evalCond L m c = true → Sem L m (.while c b) o := by
+  have bwd : ∀ f m o, sem L f (condEff L m c) (.doWhile b c) = some o → evalCond L m c = true → Sem L m (.while c b) o := by
     intro f
     induction f with
     | zero => intro m o h; simp [sem] at h
     | succ f ih =>
       intro m o h hc
       simp only [sem] at h
-      cases h1 : sem L f m b with
+      cases h1 : sem L f (condEff L m c) b with
       | none => simp [h1] at h
       | some ob =>
         obtain ⟨eb, m1⟩ := ob
-        have key : eb ≠ .brk → (if evalCond L m1 c = true then sem L f m1 (.doWhile b c) else some (.norm, m1)) = some o →
+        have key : eb ≠ .brk → (if evalCond L m1 c = true then sem L f (condEff L m1 c) (.doWhile b c) else some (.norm, condEff L m1 c)) = some o →
             Sem L m (.while c b) o := by
           intro hne h
           by_cases hc1 : evalCond L m1 c = true
           · rw [if_pos hc1] at h
             obtain ⟨f2, h2⟩ := ih m1 o h hc1
             refine ⟨f + f2 + 1, ?_⟩
-            rw [sem, if_pos hc, sem_mono_add L f f2 m b _ h1]
-            have := sem_mono_add L f2 f m1 _ o h2
+            rw [sem, if_pos hc, sem_mono_add L f f2 _ b _ h1]
+            have := sem_mono_add L f2 f _ _ o h2
             rw [Nat.add_comm] at this
             cases eb with
             | brk => exact absurd rfl hne
@@ -542,7 +573,7 @@ theorem while_dowhile_law (L : Layout) (c : Cond) (b : SStmt) : ∀ (m : SrcSt) 
             | cont => exact this
           · rw [if_neg hc1] at h
             refine ⟨f + 2, ?_⟩
-            rw [sem, if_pos hc, sem_mono L f m b _ h1]
+            rw [sem, if_pos hc, sem_mono L f _ b _ h1]
             cases eb with
             | brk => exact absurd rfl hne
             | norm => simp only [sem, if_neg hc1]; exact h
